@@ -13,6 +13,7 @@ import (
 	"path/filepath"
 	"strings"
 	"sync"
+	"time"
 
 	"github.com/B1NARY-GR0UP/originium/pkg/verifhook"
 )
@@ -49,6 +50,7 @@ type Ctl struct {
 	Files    map[string]*FileState          // base name -> lengths (as reported by hooks)
 	OnFsPre  func(op, name string, n int)   // called with the fs token held, before the operation
 	OnClient func(point string, args []any) // cm.* and cl.* points, called on the client goroutine
+	FlDelay  time.Duration                  // free-running flusher sleeps this long at its yield points
 	FsOps    int
 	FsByKind map[string]int
 }
@@ -195,6 +197,11 @@ func (c *Ctl) flusherAt(point string, args []any) {
 	}
 	c.at, c.atArgs = point, args
 	if !c.steer {
+		if d := c.FlDelay; d > 0 && point != "fl.wait" {
+			c.mu.Unlock()
+			time.Sleep(d)
+			c.mu.Lock()
+		}
 		return
 	}
 	c.parked = true
